@@ -4,7 +4,7 @@
                         ONE well-formed CBOR item (declared container lengths = contents);
      P_msg_dec_enc    : decoding the encoding (followed by any bytes [r]) returns the
                         message and leaves exactly [r]. *)
-From PV Require Import Lib.Base Cbor.Item Cbor.Enc Cbor.Dec Cbor.Api C22.Model C22.Proofs C22.Proofs2.
+From PV Require Import Lib.Base Cbor.Item Cbor.Enc Cbor.Dec Cbor.Api C22.Model C22.Proofs C22.Proofs2 C22.Proofs3.
 Open Scope Z_scope.
 
 (* keepalive *)
@@ -103,6 +103,24 @@ Proof. exact csh_no_err. Qed.
 Theorem v6_words_roundtrip : forall bits, 0 <= bits < u128b -> v6_join (v6_word1 bits) (v6_word2 bits) (v6_word3 bits) (v6_word4 bits) = bits.
 Proof. exact v6_join_words. Qed.
 
+(* localmsgsubmission (DMQ; localtxsubmission framing with DmqMsg / DmqMsgValidationError) *)
+Theorem lms_msg_wellformed : forall m, lms_wf m = true -> exists i, lms_enc m = encode_item i /\ wf_item i = true.
+Proof. exact lms_wellformed. Qed.
+Theorem lms_msg_dec_enc : forall m r, lms_wf m = true -> lms_dec (lms_enc m ++ r) = DOk (m, r).
+Proof. exact lms_dec_enc. Qed.
+
+(* localmsgnotification (DMQ) *)
+Theorem lmn_msg_wellformed : forall m, lmn_wf m = true -> exists i, lmn_enc m = encode_item i /\ wf_item i = true.
+Proof. exact lmn_wellformed. Qed.
+Theorem lmn_msg_dec_enc : forall m r, lmn_wf m = true -> lmn_dec (lmn_enc m ++ r) = DOk (m, r).
+Proof. exact lmn_dec_enc. Qed.
+
+(* localstate queries_v16 Request framing, parameterless queries *)
+Theorem lq_msg_wellformed : forall m, lq_wf m = true -> exists i, lq_enc m = encode_item i /\ wf_item i = true.
+Proof. exact lq_wellformed. Qed.
+Theorem lq_msg_dec_enc : forall m r, lq_wf m = true -> lq_dec (lq_enc m ++ r) = DOk (m, r).
+Proof. exact lq_dec_enc. Qed.
+
 (* chainsync / handshake are generic in their content / version-data codec: both theorems hold
    for ANY such codec that itself writes one well-formed item and round-trips *)
 Theorem cs_msg_generic : forall (C : Type) (encC : C -> list Z) (decC : list Z -> dres (C * list Z)) (wfC : C -> bool), (forall c, wfC c = true -> exists i, encC c = encode_item i /\ wf_item i = true) -> (forall c r, wfC c = true -> decC (encC c ++ r) = DOk (c, r)) -> forall m, cs_wf wfC m = true -> (exists i, cs_enc encC m = encode_item i /\ wf_item i = true) /\ (forall r, cs_dec decC (cs_enc encC m ++ r) = DOk (m, r)).
@@ -135,4 +153,9 @@ Proof. repeat split; reflexivity. Qed.
 Example misc_example :
   ts_wf (TsReplyTxIds [((6, [1; 2]), 300)]) = true /\ tm_wf (TmResponseNextTx (Some (6, [130; 0; 1]))) = true /\
   ls_wf (LsQuery [130; 0; 159; 1; 255]) = true /\ lf_wf (LfBlockTxs Origin [(0, 5); (3, 1)] [[1]; [129; 2]]) = true.
+Proof. repeat split; reflexivity. Qed.
+Example dmq_example :
+  lms_wf (LmsReject (DrInvalid [75; 69; 83])) = true /\ lq_wf (LqBlock 6 3) = true /\
+  lmn_wf (LmnReplyNonBlocking [DmqMsg [1] [2; 3] 7 8 [9] [10] 0 0 [11] [12]] true) = true /\
+  lq_enc (LqBlock 6 3) = [130; 0; 130; 0; 130; 6; 129; 3].
 Proof. repeat split; reflexivity. Qed.
